@@ -1,0 +1,43 @@
+//go:build verif
+
+package actionlint
+
+// C10: "a file is always attributed to the repository that actually contains it". The repository of a
+// file is looked up on disk by walking up from the file's absolute path. The spec functions stand for the
+// library results (govc/calls.go): pathdir = filepath.Dir, pathjoin = filepath.Join of two elements,
+// statok(p) / statdir(p) = os.Stat(p) succeeds / finds a directory. isanc(d, p) - "d is p or one of its
+// ancestor directories" - is defined by the two lemmas (the trusted specification).
+
+//@ spec pathdir(p: string): string
+//@ spec pathjoin(a: string, b: string): string
+//@ spec statok(p: string): bool
+//@ spec statdir(p: string): bool
+//@ spec isanc(d: string, p: string): bool
+//@ lemma isanc_refl: forall p: string :: isanc(p, p)
+//@ lemma isanc_up: forall d: string, p: string :: isanc(d, p) ==> isanc(pathdir(d), p)
+
+// The project found for a path is rooted at an ancestor directory of the file that has both
+// .github/workflows (a directory) and .git; "no project" is only answered after the walk has reached the
+// root of the file system (the directory that is its own parent).
+//@ func findProject
+//@   props C10
+//@   uses isanc_refl isanc_up
+//@   ensures result0 != nil ==> isanc(result0.root, abspath(path)) && statdir(pathjoin(pathjoin(result0.root, ".github"), "workflows")) && statok(pathjoin(result0.root, ".git"))
+//@   at_return result0 == nil && result1 == nil ==> pathdir(d) == d
+//@   at_call NewProject: isanc(root, abspath(path)) && statdir(pathjoin(pathjoin(root, ".github"), "workflows")) && statok(pathjoin(root, ".git"))
+//@   loop "for":
+//@     invariant isanc(d, abspath(path))
+
+//@ func NewProject
+//@   props C10
+//@   ensures result1 == nil ==> result0 != nil && result0.root == root
+//@   ensures result1 != nil ==> result0 == nil
+
+// A project handed out for a path either already claimed it (Knows: the path is the root or lies below it, `under`) or was
+// found by the walk above; a new project is remembered for the files that follow.
+//@ func (*Projects).At
+//@   props C10
+//@   ensures result0 != nil ==> under(result0.root, abspath(path)) || isanc(result0.root, abspath(path))
+//@   body_calls findProject iff !(exists j :: 0 <= j && j < len(old(ps.known)) && under(old(ps.known)[j].root, abspath(path)))
+//@   loop "range ps.known":
+//@     invariant forall j :: 0 <= j && j <= range_i ==> !under(ps.known[j].root, abspath(path))
